@@ -14,7 +14,8 @@ E2 bounded grammar enumeration on the real Substance class.  Four disjoint strat
   history    E1 exploration of operation histories on LIVE substances: start objects (CO2 from string and from
              dictionary, Ca(OH)2, the single-species formulas O and (N)) x every sequence of 1..2 (thorough 3)
              operations from {add(existing species, n), add(new species, n), + substance sharing a species,
-             + disjoint substance, + Element object (existing / new species), * k}, unpruned; after the last step the
+             + disjoint substance, + Element object (existing / new species), * k, s += substance, s *= k}, unpruned,
+             with table reads restricted to one component (both `quantity` flags) between the steps; after the last step the
              object is compared with the reference counts dict, the operands of every non-mutating step are re-read
              (they must still hold their own counts), the bystander formulas H2O, Ca(OH)2, O, (N), NaCl are
              constructed afresh and compared with their expansions (state must not cross objects), and the final
@@ -97,7 +98,8 @@ HIST_OTHERS = {          # right operands of '+': formula -> counts in component
 }
 HIST_OPS = [["add", "O", 2], ["add", "C", 1], ["add", "N", 1],
             ["plus", "CO"], ["plus", "OH2"], ["plus", "N2"], ["mul", 2], ["mul", 0.5],
-            ["pluscomp", "O", 2], ["pluscomp", "N", 1]]      # + Element('O', proportion=2), + Element('N')
+            ["pluscomp", "O", 2], ["pluscomp", "N", 1],      # + Element('O', proportion=2), + Element('N')
+            ["iadd", "CO"], ["imul", 2]]                     # augmented assignment  s += Substance('CO'),  s *= 2
 HDEPTH = dict(quick=2, thorough=3)
 
 
@@ -496,7 +498,7 @@ def check_algebra(kind, a, b, n, natural):
 # ------------------------------------------------------------------------------------------ histories
 def _hist_ops(history):
     """operations with the '+' operand spelled out as [key, amount] pairs for the reference model"""
-    return [["plus", HIST_OTHERS[o[1]]] if o[0] == "plus" else o for o in history]
+    return [[o[0], HIST_OTHERS[o[1]]] if o[0] in ("plus", "iadd") else o for o in history]
 
 
 def _prefixed(bad, prefix, extra_tag):
@@ -516,15 +518,25 @@ def check_history(start, natural, history):
     mops = _hist_ops(history)
     counts = R.model_run(counts0, mops)
     tags = R.history_tags(counts0, mops) + ["natural" if natural else "abundant", "input:" + start.split(":")[1]]
-    formulas = [o[1] for o in history if o[0] == "plus"]
+    formulas = [o[1] for o in history if o[0] in ("plus", "iadd")]
     alive = []
+
+    def reads(obj):
+        # table reads with a component selection, both `quantity` flags, between the steps and before the final
+        # full read-out (a read must never change what a later read returns)
+        first = next(iter(obj.components))
+        obj.data_composite(components=[first], quantity=False)
+        obj.data_composite(components=[first], quantity=True)
+        obj.data_components(quantity=True)
 
     def run():
         obj = Substance(dict(arg) if isinstance(arg, dict) else arg, natural=natural)
         it = iter(formulas)
-        return R.real_run(obj, mops, lambda pairs: Substance(next(it), natural=natural), False,
-                          make_component=lambda k, a: Element(k, proportion=a, natural=natural),
-                          counts=counts0, alive=alive)
+        final = R.real_run(obj, mops, lambda pairs: Substance(next(it), natural=natural), False,
+                           make_component=lambda k, a: Element(k, proportion=a, natural=natural),
+                           counts=counts0, alive=alive, after_step=reads)
+        reads(final)
+        return final
     o = outcome(run)
     if o[0] == "err":
         return failure("history", case, "history executed", list(o), tags, "raises:" + o[1]), counts
@@ -755,7 +767,7 @@ def finish(total, tier, seed):
     if not any(k.startswith("structure:accepted:deco=2") for k in h):
         raise HarnessError("vacuous run: no 2-decoration structure was accepted")
     for key in ("add-existing", "add-new", "plus-shared", "plus-shared-last", "plus-disjoint", "mul",
-                "pluscomp-existing", "pluscomp-new"):
+                "pluscomp-existing", "pluscomp-new", "iadd", "imul"):
         if not h.get("history:last:" + key):
             raise HarnessError("vacuous run: no history ends with " + key)
     hstates = total.sets.get("hstates", set())
@@ -794,7 +806,8 @@ MANIFEST = dict(
          "alphabet x counts x separators, every formula shape up to 5 species occurrences / 3 groups / nesting 3 with "
          "<= 1 decoration and up to 4 / 2 / 2 with <= 2 decorations (count, blank or explicit '+', explicit '* n', "
          "substituted or repeated species), a+b, a*n, (a+b)*n, a*n+b over 10 formulas, and every history of <= 2 "
-         "(thorough 3) operations {add existing/new species, + sharing/disjoint substance, + Element, * k} on 5 live "
+         "(thorough 3) operations {add existing/new species, + sharing/disjoint substance, + Element, * k, +=, *=; partial table "
+         "reads between the steps} on 5 live "
          "start substances in both modes, compared with a counts dict after the last step (table rows, sum row and the "
          "object's own total mass / total number), with re-read of all operands and 5 freshly constructed bystander "
          "formulas after every history. Counts compared exactly, "
